@@ -278,6 +278,23 @@ static void gen_rgm_ba(hctx* h, const char* const* rows, int n, const char* lo, 
     do_rgm(h, &c, 0); rg_free(&c);
 }
 
+/* the same with binary bounds of any length (a chunk whose greatest value is longer than the 256 bytes carquet's own statistics
+ * builder keeps: an independent writer states it in full) */
+static void gen_rgm_ba_bin(hctx* h, const uint8_t* big, int biglen, int dep, int op, const uint8_t* probe, int plen) {
+    rg_case c; memset(&c, 0, sizeof c); c.t = T_BA; c.tl = 0; c.ng = 1;
+    c.g = (rg_group*)h_alloc(sizeof(rg_group)); memset(c.g, 0, sizeof(rg_group));
+    c.g[0].n = 2; c.g[0].rows = (val_t*)h_alloc(sizeof(val_t) * 2);
+    c.g[0].rows[0] = v_make("a", 1); c.g[0].rows[1] = v_make((const char*)big, biglen);
+    rg_stats* s = &c.g[0].st; s->mn = v_null(); s->mx = v_null(); s->mnd = v_null(); s->mxd = v_null();
+    val_t l = v_make("a", 1), u = v_make((const char*)big, biglen);
+    if (dep == 0) { s->mn = v_dup(l); s->mx = v_dup(u); }
+    else if (dep == 1) { s->mnd = v_dup(l); s->mxd = v_dup(u); }
+    else { s->mn = v_dup(l); s->mnd = v_dup(l); s->mxd = v_dup(u); }
+    v_free(&l); v_free(&u);
+    c.op = op; c.probe = v_make((const char*)probe, plen); c.maxidx = 4; c.col = 0;
+    do_rgm(h, &c, 0); rg_free(&c);
+}
+
 /* ======================= generator ======================= */
 static void gen_stats(hctx* h) {
     long scale = h->thorough ? 50 : 1;
@@ -319,6 +336,25 @@ static void gen_stats(hctx* h) {
           for (int dep = 0; dep < 3; dep++) for (int op = 0; op < 6; op++) for (int q = 0; q < 8; q++) {
               gen_rgm_ba(h, r1, 2, "b", "zebra", dep, op, pr[q]);
               if (q % 2 == 0) gen_rgm_ba(h, r2, 2, "aaaa", "b", dep, op, pr[q]);
+          } }
+        { /* a greatest value of 255 / 256 / 257 / 300 bytes whose bytes around offset 255 are 0xFF, probed with itself, with its
+           * 255- and 256-byte prefixes, with the prefix whose last byte is bumped, and with neighbours */
+          static const int lens[] = { 255, 256, 257, 300 };
+          for (int li = 0; li < 4; li++) for (int ff = 0; ff < 2; ff++) {
+              uint8_t big[300]; for (int i = 0; i < 300; i++) big[i] = (uint8_t)('m' + i % 3);
+              if (ff) { big[254] = 0xFF; big[255] = 0xFF; } else big[255] = 0xFF;
+              int bl = lens[li];
+              uint8_t pr[6][300]; int pl[6];
+              memcpy(pr[0], big, (size_t)bl); pl[0] = bl;                                   /* the value itself */
+              memcpy(pr[1], big, 255); pl[1] = 255;                                         /* 255-byte prefix */
+              memcpy(pr[2], big, (size_t)(bl < 256 ? bl : 256)); pl[2] = bl < 256 ? bl : 256;   /* 256-byte prefix */
+              memcpy(pr[3], big, 255); pr[3][254] = (uint8_t)(pr[3][254] + 1); pl[3] = 255;    /* just above every value with that prefix (wraps for 0xFF) */
+              memcpy(pr[4], big, (size_t)bl); pr[4][bl - 1] = (uint8_t)(pr[4][bl - 1] - 1); pl[4] = bl;   /* just below the value */
+              pr[5][0] = 'z'; pl[5] = 1;                                                    /* above everything */
+              for (int dep = 0; dep < 3; dep++) for (int op = 0; op < 6; op++) for (int q = 0; q < 6; q++) {
+                  if (!h->thorough && (dep + op + q + li) % 3 != 0 && !(q == 0 && (op == 0 || op == 4 || op == 5))) continue;
+                  gen_rgm_ba_bin(h, big, bl, dep, op, pr[q], pl[q]);
+              }
           } }
         { const uint64_t r[] = { 0x3f800000u, N }; gen_rgm_bits(h, T_F32, r, 2, 0x3f800000u, N, 4, 0);
           gen_rgm_bits(h, T_F32, r, 2, 0x3f800000u, N, 5, 0x3f800000u); gen_rgm_bits(h, T_F32, r, 2, 0x3f800000u, N, 1, 0x3f800000u); }
